@@ -339,7 +339,7 @@ impl Prop for C09 {
         .unwrap()
     }
     fn rule(&self) -> String {
-        "AL: 1-6 rules with overlapping regexes (shared prefixes, classes, escapes of all kinds, alternation, repetition), 0-3 inclusive/exclusive start states, <S1,S2> prefixes, push/pop/replace targets, regex flags in a %grmtools section, top-level alternations with and without parentheses; 6 inputs each sampled from the rules' ASTs plus unmatchable characters and multi-byte text. Two construction paths: .l text through from_str, and Rule::new + from_rules (duplicate names possible). Ids through set_rule_ids and set_rule_ids_spanned with a map that misses some lexer names and has names the lexer lacks. Oracle: naive lexer (position loop, plain Vec state stack, regex crate built from the AST): same lexemes (id,start,len), same single error position; tiling; exact missing-name sets. Evaluation = one (spec,input,path). Non-trivial: >=2 active rules matched at some position, or a state operation executed, or a multi-byte character preceded a match; distinct by hash(spec,input).".into()
+        "AL: 1-6 rules with overlapping regexes (shared prefixes, classes, escapes of all kinds, alternation, repetition), 0-3 inclusive/exclusive start states, <S1,S2> prefixes, push/pop/replace targets, regex flags in a %grmtools section, top-level alternations with and without parentheses; 6 inputs each sampled from the rules' ASTs plus unmatchable characters and multi-byte text. Two construction paths: .l text through from_str, and Rule::new + from_rules (duplicate names possible). Ids through set_rule_ids (for every other case after an earlier call with a map giving every name another id) and set_rule_ids_spanned with a map that misses some lexer names and has names the lexer lacks. Oracle: naive lexer (position loop, plain Vec state stack, regex crate built from the AST): same lexemes (id,start,len), same single error position; tiling; exact missing-name sets. Evaluation = one (spec,input,path). Non-trivial: >=2 active rules matched at some position, or a state operation executed, or a multi-byte character preceded a match; distinct by hash(spec,input).".into()
     }
     fn assumptions(&self) -> Vec<String> {
         vec![
@@ -421,6 +421,14 @@ impl Prop for C09 {
             .filter(|(i, r)| r.name.is_some() && ids[*i].is_none())
             .map(|(_, r)| r.name.clone().unwrap())
             .collect();
+        // every other case: an earlier synchronisation with another parser (ids for every name,
+        // all different from the final ones) - the second call must leave nothing of it behind
+        let prev_names: Vec<String> = al.rules.iter().filter_map(|r| r.name.clone()).collect();
+        if hash64(&src) % 2 == 0 {
+            let prev: HashMap<&str, u32> = prev_names.iter().enumerate().map(|(k, n)| (n.as_str(), 1000 + k as u32)).collect();
+            let _ = def.set_rule_ids(&prev);
+            o.class("set-rule-ids-twice");
+        }
         {
             let (mfl, mfp) = def.set_rule_ids(&map);
             let mfl: BTreeSet<String> = mfl.unwrap_or_default().into_iter().map(|s| s.to_string()).collect();
